@@ -1,6 +1,5 @@
 // C05 — Tag retrieval returns exactly the tagged region (real front-end + back-end on the HDF5 model)
 #include "tagging.hpp"
-#include <nix/util/dataAccess.hpp>
 using namespace nix;
 using namespace vh;
 
@@ -11,10 +10,19 @@ static void run_tag(bool feature) {
     Arr r = make_array(b, "data", "");
     size_t rank = r.ext.size();
     uint32_t L = 1 + nixsym_choice("npos", (uint32_t)rank + 1);          // fewer, equal or more position entries than dimensions
-    std::vector<double> pos(L), ext;
-    for (auto &p : pos) { p = nixsym_f64("p"); nixsym_assume(p == p && p > -1e15 && p < 1e15); }
+    // one "focus" dimension gets fully symbolic position/extent; the others get one of three regions built from their own
+    // coordinates (whole axis / last element / beyond the end) - the dimensions are converted independently by the library,
+    // so the cross product of all per-dimension cases adds paths, not behaviours
+    size_t focus = rank > 1 ? nixsym_choice("focus", (uint32_t)rank) : 0;
     bool has_extent = nixsym_choice("extent", 2) == 1;
-    if (has_extent) { ext.resize(L); for (auto &e : ext) { e = nixsym_f64("e"); nixsym_assume(e == e && e > -1e15 && e < 1e15); } }
+    std::vector<double> pos(L), ext(has_extent ? L : 0);
+    for (size_t d = 0; d < L; d++) {
+        if (d == focus || d >= rank) { pos[d] = sym_pos("p"); if (has_extent) ext[d] = sym_pos("e"); continue; }
+        double x0 = r.ax[d].x[0], xl = r.ax[d].x[(size_t)r.ext[d] - 1];
+        uint32_t m = nixsym_choice("region", 3);
+        pos[d] = m == 0 ? x0 : m == 1 ? xl : xl + 1.0;
+        if (has_extent) ext[d] = m == 0 ? xl - x0 : 0.0;
+    }
     Tag t = b.createTag("tag", "t", pos);
     if (has_extent) t.extent(ext);
     RangeMatch match = nixsym_choice("match", 2) ? RangeMatch::Inclusive : RangeMatch::Exclusive;
@@ -22,31 +30,33 @@ static void run_tag(bool feature) {
     if (feature) { uint32_t l = nixsym_choice("link", 3); lt = l == 0 ? LinkType::Tagged : l == 1 ? LinkType::Untagged : LinkType::Indexed; t.createFeature(r.a, lt); }
     else t.addReference(r.a);
 
-    // ---- oracle ----
-    std::vector<size_t> first(rank, 0), count(rank, 0);
-    bool ok = true, zone = false;
+    // ---- oracle (one term per dimension, no branching) ----
+    std::vector<Sel> sel(rank);
+    bool ok = true, pad_wrong = false;
+    bool whole = feature && lt != LinkType::Tagged;                        // untagged / indexed features are returned whole
     for (size_t d = 0; d < rank; d++) {
-        if (feature && lt != LinkType::Tagged) { first[d] = 0; count[d] = (size_t)r.ext[d]; continue; }        // untagged / indexed features: whole array
-        if (d >= L) { first[d] = 0; count[d] = (size_t)r.ext[d]; continue; }                                   // unspecified dimension: all elements
+        if (whole || d >= L) {
+            sel[d] = select_all(r.ext[d]);
+            // unspecified dimensions are padded by the library with (first coordinate, last coordinate) used as (position, extent)
+            if (!whole) {
+                double x0 = r.ax[d].x[0], xl = r.ax[d].x[(size_t)r.ext[d] - 1];
+                pad_wrong = pad_wrong | (has_extent && match == RangeMatch::Exclusive) | !(x0 + (xl - x0) == xl);
+            }
+            continue;
+        }
         bool point = !has_extent || ext[d] == 0.0;
         double e = has_extent ? pos[d] + ext[d] : pos[d];
-        zone = zone || axis_eps_zone(r.ax[d], pos[d]) || (!point && axis_eps_zone(r.ax[d], e));
-        if (!select_axis(r.ax[d], pos[d], e, match == RangeMatch::Inclusive, point, first[d], count[d])) ok = false;
+        sel[d] = select_axis(r.ax[d], r.ext[d], pos[d], e, match == RangeMatch::Inclusive, point);
+        ok = ok & sel[d].ok;
     }
-    nixsym_finding("C07-eps-zone", zone);
-    // unspecified dimensions are padded with (first coordinate, last coordinate) used as (position, extent): in Exclusive mode the last
-    // element is dropped, and with a negative first coordinate the end falls short (pinned by testDataAccess, hence a known finding)
-    bool padded = L < rank && !(feature && lt != LinkType::Tagged);
-    bool pad_wrong = false;
-    if (padded) for (size_t d = L; d < rank; d++) pad_wrong = pad_wrong || (has_extent && match == RangeMatch::Exclusive) || r.ax[d].x[0] < 0.0 || r.ax[d].x.size() == 1;
     nixsym_finding("C05-unspecified-dimension-padding", pad_wrong);
 
     bool threw = false;
     try {
         DataView v = feature ? util::featureData(t, (ndsize_t)0, match) : util::taggedData(t, r.a, match);
         nixsym_reach("returned");
-        nixsym_assert(ok, "data was returned although the tagged block is empty or outside the data (an out-of-bounds error was required)");
-        if (ok) check_view(v, r, first, count);
+        nixsym_assert(ok, "data was returned although the tagged block is empty or reaches outside the data (an out-of-bounds error was required)");
+        check_view(v, r, sel);
     } catch (const std::exception &) { threw = true; }
     if (threw) { nixsym_reach("out-of-bounds"); nixsym_assert(!ok, "an error was raised although the tagged block is non-empty and inside the data"); }
 }
